@@ -223,6 +223,7 @@ package optics
 //@ pred loc(e) = e.RootOffs + e.StructField.Offset
 
 //@ func focusable
+//@   loops 1
 //@   props C01 C02
 //@   opt lemmas=drop_nth,drop_len
 //@   ensures result == validloc(cat, offset, name, ft)
